@@ -184,9 +184,26 @@ func TestReplay(t *testing.T) {
 	if p := os.Getenv("SIM_PROP"); p != "" {
 		prop = p
 	}
-	res := Execute(t, tr, nil, prop, os.Getenv("SIM_NOBUBBLE") == "")
-	if prop == "C01" && tr.HasFlag("twin") && len(res.Violations) == 0 {
-		applyTwin(res, tr)
+	// A violation that stems from Go's map iteration order (or another source the runtime gives no
+	// seam for) cannot be pinned by the trace: the same schedule shows it with some probability per
+	// execution. Replays of C01 traces are therefore repeated until the class shows or the retry
+	// budget is used; every other property replays exactly, first time.
+	retries := envInt("SIM_RETRIES", 1)
+	if prop == "C01" && os.Getenv("SIM_RETRIES") == "" {
+		retries = 16
+	}
+	var res *RunResult
+	for a := int64(0); a < retries; a++ {
+		res = Execute(t, tr.Clone(), nil, prop, os.Getenv("SIM_NOBUBBLE") == "")
+		if prop == "C01" && tr.HasFlag("twin") && len(res.Violations) == 0 {
+			applyTwin(res, tr)
+		}
+		if len(res.Violations) > 0 {
+			if a > 0 {
+				fmt.Printf("REPLAY-ATTEMPTS %d (violation not reproduced by the first execution: nondeterministic in the code under test)\n", a+1)
+			}
+			break
+		}
 	}
 	classes := []string{}
 	for _, v := range res.Violations {
